@@ -218,41 +218,49 @@ class GriffeLoader:
         """
         if max_iterations is None:
             max_iterations = float("inf")  # type: ignore[assignment]
-        prev_unresolved: set[str] = set()
-        unresolved: set[str] = set("0")  # Init to enter loop.
+        unresolved: set[str] = set()
         iteration = 0
         collection = self.modules_collection.members
-
-        # Before resolving aliases, we try to expand wildcard imports again
-        # (this was already done in `_post_load()`),
-        # this time with the user-configured `external` setting,
-        # and with potentially more packages loaded in the collection,
-        # allowing to resolve more aliases.
-        for wildcards_module in list(collection.values()):
-            self.expand_wildcards(wildcards_module, external=external)
-
         load_failures: set[str] = set()
-        while unresolved and unresolved != prev_unresolved and iteration < max_iterations:  # type: ignore[operator]
-            prev_unresolved = unresolved - {"0"}
-            unresolved = set()
-            resolved: set[str] = set()
-            iteration += 1
-            for module_name in list(collection.keys()):
-                module = collection[module_name]
-                next_resolved, next_unresolved = self.resolve_module_aliases(
-                    module,
-                    implicit=implicit,
-                    external=external,
-                    load_failures=load_failures,
+
+        # Resolving aliases can load more packages (see `external`), which in turn can bring
+        # new wildcard imports and new aliases: start over until no new package gets loaded,
+        # so that calling this method a second time has nothing left to do.
+        loaded_packages = -1
+        while loaded_packages != len(collection) and iteration < max_iterations:  # type: ignore[operator]
+            loaded_packages = len(collection)
+
+            # Before resolving aliases, we try to expand wildcard imports again
+            # (this was already done in `_post_load()`),
+            # this time with the user-configured `external` setting,
+            # and with potentially more packages loaded in the collection,
+            # allowing to resolve more aliases.
+            for wildcards_module in list(collection.values()):
+                self.expand_wildcards(wildcards_module, external=external)
+
+            prev_unresolved: set[str] = set()
+            unresolved = set("0")  # Init to enter loop.
+            while unresolved and unresolved != prev_unresolved and iteration < max_iterations:  # type: ignore[operator]
+                prev_unresolved = unresolved - {"0"}
+                unresolved = set()
+                resolved: set[str] = set()
+                iteration += 1
+                for module_name in list(collection.keys()):
+                    module = collection[module_name]
+                    next_resolved, next_unresolved = self.resolve_module_aliases(
+                        module,
+                        implicit=implicit,
+                        external=external,
+                        load_failures=load_failures,
+                    )
+                    resolved |= next_resolved
+                    unresolved |= next_unresolved
+                logger.debug(
+                    "Iteration %s finished, %s aliases resolved, still %s to go",
+                    iteration,
+                    len(resolved),
+                    len(unresolved),
                 )
-                resolved |= next_resolved
-                unresolved |= next_unresolved
-            logger.debug(
-                "Iteration %s finished, %s aliases resolved, still %s to go",
-                iteration,
-                len(resolved),
-                len(unresolved),
-            )
         return unresolved, iteration
 
     def expand_exports(self, module: Module, seen: set | None = None) -> None:
